@@ -448,6 +448,7 @@ PROPS["C06"] = dict(
         stage("shapes"),
         stage("guard"),
         stage("sweep"),
+        stage("stack"),
         stage("random", kind="rc", quick=3000, thorough=250000, max_size=100),
         stage("callgrind", binary="work", runner=runners.run_callgrind),
         stage("valgrind", binary="vgreplay", runner=runners.run_valgrind, quick=1200, thorough=6000),
